@@ -35,6 +35,26 @@ theorem prefix_right_of_tighter_full_false :
        .op ⟨(Gen.opInfo' "u~").id, "binary_not", .str "~"⟩, .val (.str "b")]).leftover.length = 1 := by
   decide
 
+/-- the full statement is false in a second way (known findings `dropped:filter-then-over`, `dropped:cast-then-accessor`):
+**a tighter suffix operator written behind a looser one is reduced away** — for every operand, every pair of the six
+suffix levels of the current table (`[x]`, `.name`, `:name`, OVER, FILTER, `::type`) and whatever the two suffixes carry,
+`make_tree` answers the bare operand and leaves one item over: `a::int.b` and `sum(a) filter (…) over (…)` are answered as
+`a` and `sum(a)`.  (The other order is `leftover_empty`.) -/
+theorem tighter_suffix_behind_looser_full_false (i j : Nat) (hi : i < j) (hj : j ≤ 5) (a p q : Raw) (n m : String) :
+    (makeTree (OpJson.builders Gen.assocSet) Gen.levels [.val a, .op ⟨j, n, p⟩, .op ⟨i, m, q⟩]).head = some a ∧
+    (makeTree (OpJson.builders Gen.assocSet) Gen.levels [.val a, .op ⟨j, n, p⟩, .op ⟨i, m, q⟩]).leftover.length = 1 := by
+  have hj' : j = 1 ∨ j = 2 ∨ j = 3 ∨ j = 4 ∨ j = 5 := by omega
+  rcases hj' with rfl | rfl | rfl | rfl | rfl
+  all_goals
+    have hi' : i = 0 ∨ i = 1 ∨ i = 2 ∨ i = 3 ∨ i = 4 := by omega
+    rcases hi' with rfl | rfl | rfl | rfl | rfl
+    all_goals first | omega | exact ⟨rfl, rfl⟩
+
+/-- the six levels the statement above speaks of are the suffix levels of the current table, and there are no others -/
+theorem suffix_levels_are_the_first_six :
+    (Gen.levels.take 6).all (fun l => l.kind == Kind.suf) = true ∧ (Gen.levels.drop 6).all (fun l => l.kind != Kind.suf) = true := by
+  decide
+
 /-- **Simplification loses no content**: every string, number and boolean leaf of the raw tree the parse actions
 built is a leaf of what `scrub` returns — for every raw tree of any size, both `calls=` modes and every `fmap` —
 provided no call carries a keyword argument named like the (renamed) call itself (`kwargs[op] = args` would
